@@ -1259,6 +1259,7 @@ class ContactHandler(Messenger, dbus.service.Object):
         while self._tx_pend_start:
             item = self._tx_pend_start.pop(0)
             self._logger.warning('Terminating and ignoring transfer %d', item.transfer_id)
+            self._tx_map.pop(item.transfer_id)
             self.send_bundle_finished(
                 str(item.transfer_id),
                 item.total_length or 0,
